@@ -243,12 +243,24 @@ package store
 //@   requires [not-read-only]{C14} fsWritable()
 //@   fspath [inside-repo-dir]{C16} within(path, dr.path)
 
+//@ ghost func layoutOK(b []byte) bool
+
+//@ -- layoutVerify is a deterministic function of the bytes (decodes them, compares the version): its result defines layoutOK
+//@ func layoutVerify(b []byte) (ok bool)
+//@   trusted
+//@   modifies alloc
+//@   ensures [def] ok == layoutOK(b)
+
 //@ func (dr *dirRepo) repoInit(locked bool) (err error)
 //@   requires [not-read-only]{C14} !*roPtr()
+//@   -- a layout file that is missing, unreadable or not a valid layout (for instance torn by a crash while it was
+//@   -- written in place) is written again before the repository counts as existing (C09, C10)
+//@   ensures [layout-valid-or-rewritten]{C09,C10} err == nil && !old(dr.exists) ==> layoutOK(layoutBytes) || wroteCount(layoutName) > old(wroteCount(now(layoutName)))
 //@   ensures [own-error]{C05} err != types.ErrBlobExists
 
 //@ func (dr *dirRepo) indexSave(locked bool) (err error)
 //@   ensures [own-error]{C05} err != types.ErrBlobExists
+//@   assert [encoded-into-the-file-that-is-renamed]{C09,C10} before "os.Rename(": lastEncodeTarget() == objOf(fh)
 
 //@ func (d *dir) gc(cur time.Time, prev time.Time) (err error)
 //@   requires [not-read-only]{C14} !*roPtr()
@@ -380,3 +392,15 @@ package store
 //@ -- return is the reaction to the stop signal
 //@ func (m *mem) gc(cur time.Time, prev time.Time) (err error)
 //@   loop 2: exits [failing-repository-does-not-end-the-pass]{C06} only "stop signal received"
+
+//@ -- ------------------------------------------------------------------
+//@ -- C09 / C10, ordering and naming clauses of the directory store (not a crash enumeration, see DESIGN.md 11):
+//@ -- index.json is only ever replaced by renaming a temp file of the same directory into place, after the whole index was
+//@ -- encoded into that very file; a blob file appears only by renaming a closed temp file to blobs/<alg>/<hex> of the
+//@ -- digest the digester reports; what a collection saves is the index it computed.
+
+//@ func (dru *dirRepoUpload) Close() (err error)
+//@   assert [blob-name-is-its-digest]{C10,C01} before "os.Rename(dru.filename": blobName == pathJoin(pathJoin(pathJoin(dru.path, "blobs"), algOf(digestNow(dru.d))), hexOf(digestNow(dru.d)))
+
+//@ func (dr *dirRepo) gc$2() (err error)
+//@   assert [saves-the-collected-index]{C10} before "dr.indexSave(true)": dr.index.Manifests == i.Manifests && dr.index.Annotations == i.Annotations
